@@ -191,12 +191,13 @@ Qed.
 (* ---------- onFrameDecided ---------- *)
 Lemma ofd_sim st a f : Core st es T Dr T -> In a T -> f <> 0 ->
   exists blk conf', on_frame_decided eb es st f (nd_id a) = (Ok (false, blk), decided_state st f conf') /\
-    blk_obs blk = (f, nd_id a, ElectionSpec.cheaters_of vals T (nd_id a)).
+    blk_obs blk = (f, nd_id a, ElectionSpec.cheaters_of vals T (nd_id a)) /\ b_seal blk = None.
 Proof.
   intros C Ha Hf. unfold on_frame_decided, apply_atropos.
   assert (K : forall x, In x (ids_of Dr) -> exists ev, get_event es x = Some ev /\ forall p, In p (a_parents ev) -> In p (ids_of Dr)).
   { intros x Hx. unfold ids_of in Hx. apply in_map_iff in Hx as [e [<- He]].
-    exists (to_aevent lam vals e). split; [apply (co_es _ _ _ _ _ _ _ C); exact He|].
+    exists (to_aevent lam vals e). split.
+    { apply (co_es _ _ _ _ _ _ _ C); [exact He|]. destruct (event_node vals T Dr e HwfTD He) as [m [Hm [Em _]]]. exists m. auto. }
     cbn [to_aevent a_parents]. intros p Hp. eapply (wfTD_parents vals T Dr HwfTD); eauto. }
   assert (Hs : forall x, In x [nd_id a] -> In x (ids_of Dr)).
   { intros x [<-|[]]. destruct (node_event vals T Dr a HwfTD Ha) as [e [He [E _]]].
@@ -205,7 +206,7 @@ Proof.
   2:{ exfalso. exact (confirm_never_out_of_fuel es f (nd_id a) (l_conf st) Hf E). }
   rewrite E. cbn [b_seal policy_fn find]. exists {| b_frame := f; b_atropos := nd_id a; b_cheaters := Abft.cheaters_of st (nd_id a);
              b_delivered := dl; b_seal := None |}, conf'.
-  split; [reflexivity|]. unfold blk_obs. cbn [b_frame b_atropos b_cheaters].
+  split; [reflexivity|]. split; [|reflexivity]. unfold blk_obs. cbn [b_frame b_atropos b_cheaters].
   rewrite (cheaters_sim lam vals Hvals st es T Dr T a C Ha). reflexivity.
 Qed.
 
@@ -238,7 +239,7 @@ Qed.
 
 Definition Done (st : lstate) : Prop := exists S, ES st S /\ all_voted (l_ldf st + 1) S.
 Definition blocks_ok (bl : list block) : Prop :=
-  forall b, In b bl -> b_cheaters b = ElectionSpec.cheaters_of vals T (b_atropos b).
+  forall b, In b bl -> b_cheaters b = ElectionSpec.cheaters_of vals T (b_atropos b) /\ b_seal b = None.
 
 Lemma root_at_frame st x f : Core st es T Dr T -> In x (rts f) -> exists r, In r (l_roots st) /\ r_frame r = f.
 Proof.
@@ -261,7 +262,7 @@ Proof.
     split; [constructor|]. split; [intros b []|]. split; reflexivity.
   - destruct (atropos_in _ _ Hd) as [x [Ix Ex]]. subst a.
     assert (C1 : Core (st_with st c1 el1) es T Dr T) by (unfold st_with; apply Core_el, Core_fcc, (es_core _ _ E)).
-    destruct (ofd_sim (st_with st c1 el1) x (l_ldf st + 1) C1 (roots_in _ _ _ _ _ _ Ix) ltac:(lia)) as [blk [conf' [EO OB]]].
+    destruct (ofd_sim (st_with st c1 el1) x (l_ldf st + 1) C1 (roots_in _ _ _ _ _ _ Ix) ltac:(lia)) as [blk [conf' [EO [OB SL]]]].
     rewrite EO.
     set (st2 := decided_state (st_with st c1 el1) (l_ldf st + 1) conf').
     assert (E2 : ES st2 (fun _ => False)).
@@ -275,7 +276,7 @@ Proof.
     unfold blk_obs in OB. inversion OB as [[OB1 OB2 OB3]].
     split; [|split; [|split; [exact RR | exact CC]]].
     + cbn [map]. unfold fa at 1. rewrite OB1, OB2. constructor; [exact Hd | exact SG].
-    + intros b [<-|Hb]; [rewrite OB3, OB2; reflexivity | apply BO; exact Hb].
+    + intros b [<-|Hb]; [rewrite OB3, OB2; auto | apply BO; exact Hb].
 Qed.
 
 (* ---------- handleElection ---------- *)
@@ -320,7 +321,7 @@ Proof.
       { apply (choose_some_decide vals Hvals T HwfT Hff (l_ldf st + 1) el1 _ a I1). symmetry. exact ER. }
       destruct (atropos_in _ _ Hd) as [x [Ix Ex]]. subst a.
       assert (C1 : Core (st_with st c1 el1) es T Dr T) by (unfold st_with; apply Core_el, Core_fcc, C).
-      destruct (ofd_sim (st_with st c1 el1) x (l_ldf st + 1) C1 (roots_in _ _ _ _ _ _ Ix) ltac:(lia)) as [blk [conf' [EO OB]]].
+      destruct (ofd_sim (st_with st c1 el1) x (l_ldf st + 1) C1 (roots_in _ _ _ _ _ _ Ix) ltac:(lia)) as [blk [conf' [EO [OB SL]]]].
       rewrite EO.
       set (st2 := decided_state (st_with st c1 el1) (l_ldf st + 1) conf').
       assert (E2 : ES st2 (fun _ => False)).
@@ -337,7 +338,7 @@ Proof.
       split; [|split; [|split; [rewrite RR2, RR1; reflexivity | rewrite CC2, CC1; reflexivity]]].
       * cbn [map]. unfold fa at 1. rewrite OB1, OB2. constructor; [exact Hd|]. rewrite map_app.
         eapply Seg_app; [exact SG1 | exact SG2].
-      * intros b [<-|Hb]; [rewrite OB3, OB2; reflexivity|]. apply in_app_or in Hb as [Hb|Hb]; [apply BO1 | apply BO2]; exact Hb.
+      * intros b [<-|Hb]; [rewrite OB3, OB2; auto|]. apply in_app_or in Hb as [Hb|Hb]; [apply BO1 | apply BO2]; exact Hb.
 Qed.
 
 (* when every slot has voted and no Atropos is chosen, the reference has none either *)
